@@ -187,4 +187,14 @@ def case_umis(ctx, p):
         mon.check("workload:Umis raises on proper rotations", False, observed=repr(exc))
 
 
+def finish(ctx):
+    S, mon = ctx.S, ctx.mon
+    for cs in range(1, 8):
+        rot = S.rotations(cs)
+        cached = S.ROTATIONS[cs]
+        same = np.asarray(cached).shape == np.asarray(rot).shape and bool(np.array_equal(np.asarray(cached), np.asarray(rot)))
+        mon.check("invariant:ROTATIONS == rotations()", same, detail="after the Umis workload", observed=None if same else cs)
+        group_check(mon, "invariant:rotations() is a group of proper rotations", rot, ORDERS[cs], False, 1e-12)
+
+
 CASES = {"system": case_system, "umis": case_umis}
